@@ -70,6 +70,11 @@ def cases(tier, seed):
                                       ['cd_deleted'], ['cd_deleted', 'env_set'], ['env_unset', 'cd_deleted'])):
                 yield {'d': 1, 'ending': e, 'keep': keep, 'disturb': list(dist), 'out': OUT_KINDS[(i + len(e)) % 5],
                        'rc': (7 * len(e) + i) % 256, 'where': ['setup', 'before-assert', 'cleanup'][i % 3]}
+    for tname in sorted(_MINIMAL_TEXTS):
+        for keep in (False, True):
+            for pp in (False, True):
+                for elsewhere in (False, True):
+                    yield {'d': 3, 'text': tname, 'keep': keep, 'pp': pp, 'elsewhere': elsewhere}
     # the directory Exactly was started in is removed during the run
     for e in D1_ENDINGS:
         for keep in (False, True):
@@ -498,9 +503,73 @@ def run_d1(case, ctx):
     return res
 
 
+_MINIMAL_TEXTS = {'empty-file': '', 'headers-only': '[setup]\n[act]\n[before-assert]\n[assert]\n[cleanup]\n',
+                  'conf-only': '[conf]\nstatus = PASS\n', 'comment-only': '# nothing here\n', 'blank-lines': '\n\n',
+                  'act-header-only': '[act]\n', 'one-assert': '[assert]\nexit-code == 0\n',
+                  'one-cleanup': '[cleanup]\nfile -rel-tmp x.txt\n'}
+
+
+def run_d3(case, ctx):
+    """Minimal test cases (nothing to execute in some or all phases), optionally through a preprocessor, started from a
+    directory other than the one of the case file: every execution that gets past validation uses a sandbox with the
+    documented layout - also when there is nothing to do in it -, --keep reports it, and the process is left as it was."""
+    ses = ctx.get_session()
+    d = ses.new_case_dir({'t.case': _MINIMAL_TEXTS[case['text']]})
+    start = os.path.join(ctx.scratch, 'c04-elsewhere') if case['elsewhere'] else d
+    os.makedirs(start, exist_ok=True)
+    argv = (['--keep'] if case['keep'] else []) + (['--preprocessor', 'cat'] if case['pp'] else []) + \
+        [os.path.join(d, 't.case')]
+    r = ses.run(argv, cwd=start, mode='keep' if case['keep'] else 'normal')
+    ctx.count('c04.d1_runs')
+    ctx.count('c04.minimal_case_runs')
+    viol, inconc = [], []
+    if r.timed_out:
+        inconc.append('watchdog')
+    elif r.exc is not None:
+        viol.append('exception escaped: %s' % r.exc[-300:])
+    else:
+        ctx.count('c04.after_return_checks')
+        if r.cwd_after != r.cwd_before:
+            viol.append('current directory of the Exactly process is %r after the run, was %r' % (r.cwd_after, r.cwd_before))
+        if r.env_after != r.env_before:
+            viol.append('environment of the Exactly process changed')
+        sandboxes = [n for n in r.new_tmp_entries if n.startswith('exactly-')]
+        mk = [a for a in r.audit if a[0] == 'tempfile.mkdtemp']
+        ident = (r.err if case['keep'] else r.out).strip().split('\n')[0] if (r.err if case['keep'] else r.out).strip() else ''
+        if r.rc != 0:
+            viol.append('a minimal valid case must PASS, got exit code %r (%s)' % (r.rc, (r.out + r.err)[:200]))
+        else:
+            if len(mk) < 1:
+                viol.append('the case PASSes but no sandbox directory was created (no mkdtemp event): every execution '
+                            'that gets past validation uses a sandbox')
+            if not case['keep']:
+                if sandboxes:
+                    viol.append('sandbox left behind without --keep: %r' % sandboxes)
+            elif len(sandboxes) != 1:
+                viol.append('--keep: expected exactly one kept sandbox, found %r (stdout %r)' % (sandboxes, r.out[:120]))
+            else:
+                root = os.path.join(ses.tmpdir, sandboxes[0])
+                if os.path.realpath(r.out.rstrip('\n')) != os.path.realpath(root):
+                    viol.append('--keep: stdout %r does not report the sandbox %r' % (r.out[:200], root))
+                if _ls(root) != LAYOUT:
+                    viol.append('--keep: sandbox layout %r' % _ls(root))
+                elif _ls(os.path.join(root, 'result')) != RESULT_FILES:
+                    viol.append('result/ holds %r after the (empty) act phase, documented %r'
+                                % (_ls(os.path.join(root, 'result')), RESULT_FILES))
+    ses.clean_tmp()
+    ses.drop(d)
+    return {'classes': [('minimal', case['text'], case['keep'], case['pp'], case['elsewhere'])],
+            'viol': [{'what': 'C04 minimal case %s%s%s: %s' % (case['text'], ' --keep' if case['keep'] else '',
+                                                             ' --preprocessor' if case['pp'] else '', m),
+                      'detail': {'case_text': _MINIMAL_TEXTS[case['text']], 'argv': argv[:-1], 'observed': r.brief()}}
+                     for m in viol], 'inconclusive': inconc}
+
+
 def run_case(case, ctx):
     if case['d'] == 2:
         return run_d2(case, ctx)
+    if case['d'] == 3:
+        return run_d3(case, ctx)
     return run_d1(case, ctx)
 
 
